@@ -100,6 +100,12 @@ class RecomputingDict(MutableMapping[RuleKey, AbstractStrategy]):
                 else:
                     rule = x
                 try:
+                    # A stored key only mentions classes the database knows. Looking
+                    # up the label of an unknown class would add it to the database.
+                    if rule.comb_class not in self.classdb or any(
+                        child not in self.classdb for child in rule.children
+                    ):
+                        continue
                     start_label = self.classdb.get_label(rule.comb_class)
                     # same cleaning as RuleDBBase._clean_labels did when storing
                     nonempty_children = tuple(
